@@ -87,6 +87,11 @@ P('C17', theorems=['Tcs.C17_flag_over_env', 'Tcs.C17_resolve_ignores_env_when_fl
   owned={'cfg.start', 'cfg.listen', 'cfg.dir', 'cfg.restart', 'http.status', 'http.urgency', 'http.headers'},
   oracles=[O.o_c17],
   plan={'quick': [{'scen': 'py:c17', 'args': {}, 'n': 24, 'shards': 8}], 'thorough': [{'scen': 'py:c17', 'args': {}, 'n': 300, 'shards': 12}]})
+P('C19', theorems=['Tcs.hyphenated_length', 'Tcs.hyphenated_hyphens', 'Tcs.hyphenated_lower', 'Tcs.parse_hyphenated', 'Tcs.hyphenated_inj', 'Tcs.parseUuid_lt'],
+  module='Tcs.Proofs.CodecProofs',
+  owned={'fixture.decode', 'state.dump', 'gcv.kind', 'gcv.ids', 'gcv.payload', 'http.status', 'http.headers', 'http.body', 'av.kind'},
+  oracles=[O.o_c19],
+  plan={'quick': [{'scen': 'fixture', 'args': {'shards': 4}, 'n': 4, 'shards': 4}], 'thorough': [{'scen': 'fixture', 'args': {'shards': 7}, 'n': 7, 'shards': 7}]})
 P('C05', theorems=['Tcs.fault_safety', 'Tcs.runF_noFault', 'Tcs.commitId_sql', 'Tcs.commitLast_getChildVersion', 'Tcs.commitLast_addVersion', 'Tcs.commitLast_addSnapshot', 'Tcs.commitLast_getSnapshot', 'Tcs.commitLast_ensureFixed', 'Tcs.single_txn_fault', 'Tcs.allCommitLast_req', 'Tcs.allCommitLast_serve', 'Tcs.reqRunF_noFault', 'Tcs.crash_state_between_txns'],
   module='Tcs.Proofs.ReqFault',
   owned={'av.kind', 'gcv.kind', 'as.kind', 'gs.kind', 'http.status', 'state.dump', 'fault.consumed'},
